@@ -1309,8 +1309,8 @@ package sio
 //@   opt safety off
 //@   requires handler != nil && header != nil
 //@   ghost called int = 0
-//@   callsite (*clientSocket).pid skip
-//@   callsite (*clientSocket).setLastOffset skip
+//@   callsite (*clientSocket).setLastOffset
+//@     requires false [C01.client.callevent.takes.no.argument.for.the.offset]
 //@   callsite (*eventHandler).ack skip
 //@   callsite dismantleAckFunc skip
 //@   callsite FuncOf skip
@@ -1433,14 +1433,36 @@ package sio
 
 // C05 (client): an event that arrives before the server accepted this namespace's CONNECT is buffered, never handed
 // to the handlers (the namespace may still be refused).
+// C01 / C08 (client, state recovery): the recovery offset the server appends to an event is decoded as ONE EXTRA
+// value after the handler's own parameters (only when a private session id is known and the event carries no ack id),
+// it alone is recorded as the last offset, and the handler is handed exactly the values decoded for ITS parameters -
+// as many as it has, the first ones, whatever their types.
 //@ func (*clientSocket).onEvent
 //@   opt safety off
 //@   requires handler != nil && header != nil
 //@   ghost called int = 0
+//@   ghost haspid bool = false
+//@   ghost decoded int = 0
+//@   ghost dec []reflect.Value = nil
+//@   ghost offsets int = 0
+//@   callsite (*clientSocket).pid skip
+//@     updateafter haspid = result1
+//@   callsite TypeOf skip
 //@   callsite decode skip
+//@     requires decoded == 0 && len(arg0) == len(handler.inputArgs) + ((haspid && header.ID == nil) ? 1 : 0) [C01.client.decodes.the.handlers.parameters.plus.the.offset]
+//@     requires !(haspid && header.ID == nil) ==> arg0 == handler.inputArgs [C01.client.decodes.the.handlers.parameter.types]
+//@     update decoded = decoded + 1
+//@     updateafter dec = result0
+//@   callsite (*clientSocket).setLastOffset skip
+//@     requires haspid && header.ID == nil && decoded == 1 && len(dec) == len(handler.inputArgs) + 1 && offsets == 0 [C08.client.offset.is.the.extra.value]
+//@     update offsets = offsets + 1
+//@   callsite Elem skip
+//@   callsite Kind skip
+//@   callsite String skip
 //@   callsite onError skip
 //@   callsite (*clientSocket).callEvent skip
 //@     requires s.state == clientSocketConnStateConnected [C05.cli.event.only.when.attached]
+//@     requires decoded == 1 && len(arg2) == len(handler.inputArgs) && arr(arg2) == arr(dec) && off(arg2) == off(dec) [C01.client.handler.gets.the.values.decoded.for.its.parameters]
 //@     update called = called + 1
 //@   ensures s.state != clientSocketConnStateConnected ==> called == 0 [C05.cli.event.buffered.until.attached]
 
